@@ -19,10 +19,10 @@ const (
 	KStr
 	KBool
 	KList
-	KMap   // string-keyed, keys in MK (insertion order), values in L
-	KLoop  // forloop record
-	KMacro // callable
-	KCycle // value bound by `cycle ... as`
+	KMap    // string-keyed, keys in MK (insertion order), values in L
+	KLoop   // forloop record
+	KMacro  // callable
+	KCycle  // value bound by `cycle ... as`
 	KOpaque // something the model does not look into (prints as nothing judged)
 )
 
@@ -49,12 +49,12 @@ type Loop struct {
 	EmptyRec bool
 }
 
-func NilV() V          { return V{K: KNil} }
-func IntV(i int) V     { return V{K: KInt, I: i} }
-func StrV(s string) V  { return V{K: KStr, S: s} }
-func BoolV(b bool) V   { return V{K: KBool, B: b} }
+func NilV() V            { return V{K: KNil} }
+func IntV(i int) V       { return V{K: KInt, I: i} }
+func StrV(s string) V    { return V{K: KStr, S: s} }
+func BoolV(b bool) V     { return V{K: KBool, B: b} }
 func FloatV(f float64) V { return V{K: KFloat, F: f} }
-func ListV(l ...V) V   { return V{K: KList, L: l} }
+func ListV(l ...V) V     { return V{K: KList, L: l} }
 func MapV(kv ...any) V {
 	m := V{K: KMap}
 	for i := 0; i+1 < len(kv); i += 2 {
